@@ -1397,6 +1397,7 @@ class VM:
         return (
             key_str.isascii()
             and key_str.isdigit()
+            and len(key_str) <= 21  # (no index is longer; int() refuses huge digit strings)
             and str(int(key_str)) == key_str
             and int(key_str) < obj.length
         )
@@ -1423,7 +1424,12 @@ class VM:
         (True, i) for the integer index i, (True, None) for any other canonical
         numeric string ("-1", "1.5", "-0", "NaN": reads yield undefined, writes
         are ignored), (False, None) for an ordinary property name."""
-        if key_str.isascii() and key_str.isdigit() and (key_str == "0" or key_str[0] != "0"):
+        if (
+            key_str.isascii()
+            and key_str.isdigit()
+            and len(key_str) <= 21  # (longer digit strings are not canonical numbers)
+            and (key_str == "0" or key_str[0] != "0")
+        ):
             return True, int(key_str)
         if key_str == "-0":
             return True, None
